@@ -5,7 +5,7 @@
 # Date   : Feb 13, 2019
 """Helper methods for RTLIR."""
 
-from pymtl3.datatypes import Bits, is_bitstruct_class
+from pymtl3.datatypes import Bits, is_bitstruct_class, is_bitstruct_inst
 
 from ..rtype.RTLIRDataType import get_rtlir_dtype
 
@@ -38,6 +38,10 @@ def get_component_full_name( c_rtype ):
     # str() of a Bits value drops the width: Bits8(3) and Bits5(3) are '03'
     if isinstance(obj, Bits):
       return f"Bits{obj.nbits}_{obj}"
+    # ... and str() of a bitstruct value drops the type: values of two struct
+    # types with different field widths print alike
+    if is_bitstruct_inst(obj):
+      return f"{get_rtlir_dtype( obj ).get_name()}_{obj}"
     return str( obj )
 
   comp_name = c_rtype.get_name()
